@@ -291,6 +291,22 @@ CHECKS = {
         "operand neq, pinned by the repository's tests) is matched by its exact wrong result.",
         "DESIGN.md 4/C19",
     ),
+    "C20": (
+        "exploration",
+        "complete enumeration of token sequences up to a length over a vocabulary of ACL words, "
+        "fragments, out-of-range values and oddities x 13 constructor entry points x 3 platforms; "
+        "all truncations/permutations of valid lines; all indentation assignments of 5 config line "
+        "lists; repetition-count sweeps for every loop/recursion/regex on the input path",
+        "~700k (quick) / ~3M (thorough) constructor calls: each must return or raise ValueError/"
+        "TypeError within a per-call CPU budget; whatever is returned must render text the same "
+        "constructor accepts again; config-level functions likewise on every indentation assignment "
+        "(4^5 quick / 5^5 thorough per line list, with and without comment lines); sweeps n = 1..5000 "
+        "for 29 input shapes must terminate without other exceptions and grow at most ~quadratically; "
+        "valid lines of 40..160 characters whose rendering is longer/shorter than the input.",
+        "Trusted: CPU alarm (SIGVTALRM). Termination is decided only up to the per-call budget and the "
+        "sweep sizes. Known finding K06 (Acl('') renders a header Acl rejects; pinned by tests).",
+        "DESIGN.md 4/C20",
+    ),
 }
 
 NOT_BUILT = "check not built yet (work in progress, see DESIGN.md section 8 build order)"
